@@ -477,10 +477,33 @@ def loop_carried(fn):
             yield L, v, "container", reads[0], ops
 
 
-def _dedupe_set(fn, v):
-    """every use of v in fn is its creation as a set, `.add(..)`, or a membership test"""
+def _dedupe_set(fn, v, _depth=0):
+    """every use of v in fn is its creation as a set (or as another local that is such a set: a helper that builds the set is
+    analysed inlined and hands it over through a local), `.add(..)`, or a membership test"""
     for n in ast.walk(fn):
         if isinstance(n, ast.Name) and n.id == v:
+            par = getattr(n, "_parent", None)
+            if isinstance(n.ctx, ast.Store):
+                val = getattr(par, "value", None)
+                if isinstance(par, (ast.Assign, ast.AnnAssign)) and (isinstance(val, (ast.Set, ast.SetComp)) or (
+                        isinstance(val, ast.Call) and isinstance(val.func, ast.Name) and val.func.id == "set")):
+                    continue
+                if isinstance(par, (ast.Assign, ast.AnnAssign)) and isinstance(val, ast.Name) and val.id != v and _depth < 2 \
+                        and _dedupe_set_source(fn, val.id, v, _depth + 1):
+                    continue
+                return False
+            if isinstance(par, ast.Attribute) and par.attr == "add":
+                continue
+            if isinstance(par, ast.Compare) and len(par.ops) == 1 and isinstance(par.ops[0], (ast.In, ast.NotIn)) and par.comparators[0] is n:
+                continue
+            return False
+    return True
+
+
+def _dedupe_set_source(fn, src, heir, depth):
+    """src is created as a set, only .add-ed to / tested, and then handed to ``heir`` (its only other use)"""
+    for n in ast.walk(fn):
+        if isinstance(n, ast.Name) and n.id == src:
             par = getattr(n, "_parent", None)
             if isinstance(n.ctx, ast.Store):
                 val = getattr(par, "value", None)
@@ -491,6 +514,9 @@ def _dedupe_set(fn, v):
             if isinstance(par, ast.Attribute) and par.attr == "add":
                 continue
             if isinstance(par, ast.Compare) and len(par.ops) == 1 and isinstance(par.ops[0], (ast.In, ast.NotIn)) and par.comparators[0] is n:
+                continue
+            if isinstance(par, (ast.Assign, ast.AnnAssign)) and par.value is n and all(isinstance(t, ast.Name) and t.id == heir for t in
+                                                                                      (par.targets if isinstance(par, ast.Assign) else [par.target])):
                 continue
             return False
     return True
